@@ -67,6 +67,31 @@ theorem add_leap_cases' (t : Time) (δ : Int) (ht : TValid t) (hl : t.frac ≥ 1
     simp only [Prod.mk.injEq, Time.mk.injEq, and_true, true_and]
     omega
 
+/-- G4: `b + (a − b) = a` within the day — `diffLeap` is the inverse of the independent `addLeap`
+wherever `a` can be reached from `b` at all (an ordinary `a`, or a leap `a` inside `b`'s own leap
+second) -/
+theorem add_of_diff' (a b : Time) (ha : TValid a) (hb : TValid b)
+    (h : a.frac < 1000000000 ∨ (a.secs = b.secs ∧ b.frac ≥ 1000000000)) :
+    addLeap b (diffLeap a b) = (a, 0) := by
+  obtain ⟨s1, f1⟩ := a
+  obtain ⟨s2, f2⟩ := b
+  simp only [TValid] at ha hb
+  dsimp only at h
+  unfold addLeap diffLeap linePos pos
+  simp only []
+  leap_cases
+
+/-- G4, two leap-second operands on different seconds: the distance splits at the start of the later
+operand's second into two distances that each involve one leap second only -/
+theorem diff_split' (a b : Time) (h : a.secs < b.secs) :
+    diffLeap b a = diffLeap b ⟨b.secs, 0⟩ + diffLeap ⟨b.secs, 0⟩ a := by
+  obtain ⟨s1, f1⟩ := a
+  obtain ⟨s2, f2⟩ := b
+  dsimp only at h
+  unfold diffLeap linePos pos
+  simp only []
+  (repeat' split) <;> omega
+
 /-! ### the acceptance rule as an invariant (G5) -/
 
 /-- for a valid time, the strict invariant is the statement's acceptance rule on its four fields -/
